@@ -544,5 +544,7 @@ func checkC02(c *vh.Ctx) {
 	denitKernelStage(c, c.N(1000, 15000), "C02")
 	wholeRunStage(c, c.N(40, 500), false, c02Day)
 	peatRuns(c, c.N(4, 40), false, c02Day)
+	tillKernelStage(c, c.N(800, 10000)) // complete mixing only moves mineral N between the tilled layers (any depth, incl. deeper than the four counter slots)
+	deepTillageRuns(c, c.N(4, 40), c02Day)
 	lateMeasureRuns(c, c.N(4, 40), c02Day) // the overwrite day in the middle of a run is excluded, the days around it are not
 }
